@@ -43,12 +43,13 @@ def check_rep(h: Harness, name, rep, spec, b, shared, rng, model_line):
         st, pair = safe(lambda: rep.crossover(shared, g0, g1))
         if st == "ok":
             genos.append(pair[0])
-    for geno in genos:
+
+    def process(geno):
         before = shared.calls
         dna_before = snapshot(name, geno, b)
         st, p = safe(lambda: rep.genotype_to_phenotype(geno))
         if st == "skip":
-            continue
+            return
         first_calls = shared.calls - before
         res = ["ok", gram.canon(p, b)] if st == "ok" else ["err", p]
         text = repr(p) if st == "ok" else None    # (float values, which the canonical form hides, are compared too)
@@ -71,11 +72,24 @@ def check_rep(h: Harness, name, rep, spec, b, shared, rng, model_line):
                 h.fail(site, "same-genotype-different-program",
                        f"mapping #{k + 2} of the same genotype gave {(sx(res2) if sx(res2) != sx(res) else repr(p2))[:160]} instead of "
                        f"{(sx(res) if sx(res2) != sx(res) else text)[:160]}", replay)
-                break
+                return
             if shared.calls != before:
                 h.fail(site, "mapping-draws-from-shared-source",
                        f"re-mapping an already mapped genotype advanced the shared source by {shared.calls - before} draws", replay)
-                break
+                return
+
+    for geno in genos:
+        process(geno)
+    # late offspring: crossover of an already MAPPED genotype with a fresh, never mapped one, in both orders (a child of dynamic SGE
+    # inherits empty gene lists for the symbols its other parent never used, and must fill them for good when it is mapped)
+    st, fresh = safe(lambda: rep.create_genotype(shared))
+    if st == "ok":
+        for a, c in ((g0, fresh), (fresh, g0)):
+            st, pair = safe(lambda: rep.crossover(shared, a, c))
+            if st == "ok":
+                h.count(f"{name}:late-offspring")
+                for child in pair:
+                    process(child)
 
 
 def snapshot(name, geno, b):
